@@ -37,6 +37,9 @@ type sRef struct {
 
 type sessRun struct {
 	aging  bool
+	renew  bool // a session kept alive past 24 h: every few hours it is re-authenticated with a new ID token and the same refresh token
+	born   map[string]int64 // browser semantics: when the cookie of that name was last set, and the Max-Age it was set with
+	maxAge map[string]int64
 	edge   bool // the last seconds of the 24-hour limit: a save at age 86399 s, at 86400 s, and one second later
 	sm     *oidc.SessionManager
 	force  bool
@@ -54,6 +57,43 @@ type sessRun struct {
 func (s *sessRun) rec(m M) {
 	s.hist = append(s.hist, m)
 	T.emit(m)
+}
+
+// applyHeaders: the browser takes over the Set-Cookie lines of a response, remembering for each cookie when it was set and for how long
+func (s *sessRun) applyHeaders(h http.Header) {
+	if s.born == nil {
+		s.born, s.maxAge = map[string]int64{}, map[string]int64{}
+	}
+	resp := http.Response{Header: h}
+	now := time.Now().Unix()
+	for _, c := range resp.Cookies() {
+		if c.MaxAge > 0 {
+			s.born[c.Name], s.maxAge[c.Name] = now, int64(c.MaxAge)
+		} else {
+			delete(s.born, c.Name)
+			delete(s.maxAge, c.Name)
+		}
+	}
+	s.jar.apply(h)
+}
+
+// expireInBrowser: a cookie is dropped once the Max-Age it was set with has run out (the model is told which)
+func (s *sessRun) expireInBrowser() {
+	now := time.Now().Unix()
+	names := []string{}
+	for n := range s.jar {
+		names = append(names, n)
+	}
+	sortStrings(names)
+	for _, n := range names {
+		if ma, ok := s.maxAge[n]; ok && now-s.born[n] > ma {
+			if sn := shortName(n); sn != "" {
+				delete(s.jar, n)
+				s.rec(M{"op": "jar", "edit": "drop", "name": sn})
+				T.stat("session.cookies-expired-in-browser")
+			}
+		}
+	}
 }
 
 func (s *sessRun) replay() interface{} {
@@ -419,6 +459,10 @@ func familySession(t *testing.T) {
 			if s.aging {
 				nReq = 5 + rng.Intn(4)
 			}
+			s.renew = h%8 == 7
+			if s.renew {
+				nReq = 5 + rng.Intn(3)
+			}
 			s.edge = h%8 == 6
 			if s.edge {
 				nReq = 4
@@ -426,7 +470,7 @@ func familySession(t *testing.T) {
 			}
 			for q := 0; q < nReq; q++ {
 				s.request(rng, q)
-				if s.aging {
+				if s.aging || s.renew {
 					time.Sleep(9*time.Hour + time.Duration(rng.Intn(3600))*time.Second)
 				}
 				if s.edge { // renewed one second before the limit, exactly at it, and one second past it
@@ -495,6 +539,7 @@ func (s *sessRun) request(rng *mrand.Rand, q int) {
 	now := time.Now().Unix()
 	scheme := "http"
 	r := httptest.NewRequest("GET", scheme+"://app.test/", nil)
+	s.expireInBrowser()
 	s.jar.addTo(r)
 	sd, err := s.sm.GetSession(r)
 	if err != nil {
@@ -578,6 +623,34 @@ func (s *sessRun) request(rng *mrand.Rand, q int) {
 		if (s.aging || s.edge) && q > 0 && q < 3 {
 			nW = 0 // the session is only carried along (every response renews the cookies) until it is over age
 		}
+		if s.renew && sv == 0 {
+			// what a successful refresh does: a new ID token, the refresh token the provider keeps (the same string is written
+			// again), authenticated anew (the 24 hours start over)
+			nW = 0
+			if q == 0 {
+				rt := s.randomToken(rng)
+				id := s.reg(rt)
+				sd.SetRefreshToken(rt)
+				s.ref.refresh = rt
+				s.secrets = append(s.secrets, rt)
+				s.rec(M{"op": "sset", "field": "refresh", "val": id})
+			} else {
+				rt := s.ref.refresh
+				sd.SetRefreshToken(rt)
+				s.rec(M{"op": "sset", "field": "refresh", "val": s.reg(rt)})
+			}
+			tok := s.randomToken(rng)
+			id := s.reg(tok)
+			sd.SetAccessToken(tok)
+			s.ref.access = tok
+			s.secrets = append(s.secrets, tok)
+			s.rec(M{"op": "sset", "field": "access", "val": id})
+			sd.SetAuthenticated(true)
+			s.ref.auth = true
+			s.ref.created = now
+			s.rec(M{"op": "sset", "field": "auth", "bool": true})
+			T.stat("session.renewals")
+		}
 		for i := 0; i < nW; i++ {
 			switch f := rng.Intn(11); f {
 			case 0, 1, 2:
@@ -657,7 +730,7 @@ func (s *sessRun) request(rng *mrand.Rand, q int) {
 				T.oracle("C17", "Save failed for values written through the API", M{"err": err.Error()}, s.replay())
 			}
 			s.known = false
-			s.jar.apply(rec.Header()) // (what an earlier Save of the same response has written reaches the browser)
+			s.applyHeaders(rec.Header()) // (what an earlier Save of the same response has written reaches the browser)
 			return
 		}
 		lines := M{}
@@ -695,7 +768,7 @@ func (s *sessRun) request(rng *mrand.Rand, q int) {
 		}
 		s.rec(M{"op": op, "obs": obs, "deleted": dels})
 	}
-	s.jar.apply(rec.Header())
+	s.applyHeaders(rec.Header())
 }
 
 // tamperMatrix (C09): each modification of an authentic value must read exactly like the cookie being absent; a same-name
